@@ -16,9 +16,12 @@ VARIABLES
   commits,   \* Seq of the contents of all commits of this run (commits[1] = the empty index)
   rlo,       \* <<reader, thread>> -> number of completed commits when that thread's current reload started
   rlast,     \* reader -> index of the commit its last reload exposed
-  heldObs    \* <<reader, generation>> -> the observation made when that searcher was loaded
+  heldObs,   \* <<reader, generation>> -> the observation made when that searcher was loaded
+  rfloor     \* <<reader, thread>> -> what the reader had exposed when that thread announced its read (threads
+             \* sharing a reader log `read_start` before they read: a result event may be logged late, the
+             \* read itself happened after everything logged before its read_start)
 
-rvars == <<commits, rlo, rlast, heldObs>>
+rvars == <<commits, rlo, rlast, heldObs, rfloor>>
 allvars == <<vars, rvars>>
 
 Min(S) == CHOOSE x \in S : \A y \in S : x <= y
@@ -31,23 +34,29 @@ RReaderNew ==
   /\ Ev.ev = "reader_new" /\ Ev.ok
   /\ rlo' = (RK :> Len(commits)) @@ rlo
   /\ rlast' = (Ev.r :> 1) @@ rlast
-  /\ UNCHANGED <<commits, heldObs>>
+  /\ UNCHANGED <<commits, heldObs, rfloor>>
 
 RReloadStart ==
   /\ Ev.ev = "reload_start"
   /\ rlo' = (RK :> Len(commits)) @@ rlo
-  /\ UNCHANGED <<commits, rlast, heldObs>>
+  /\ UNCHANGED <<commits, rlast, heldObs, rfloor>>
+
+RReadStart ==
+  /\ Ev.ev = "read_start"
+  /\ rfloor' = (RK :> rlast[Ev.r]) @@ rfloor
+  /\ UNCHANGED <<commits, rlo, rlast, heldObs>>
 
 RReload ==
   /\ Ev.ev = "reload" /\ Ev.ok            \* OpenNeverFails: a failed reload is not accepted
   /\ ObsConsistent(Ev.obs)
   /\ LET hi == Len(commits) + (IF calling THEN 1 ELSE 0)
-         lower == IF rlast[Ev.r] > rlo[RK] THEN rlast[Ev.r] ELSE rlo[RK]
+         floor == IF RK \in DOMAIN rfloor THEN rfloor[RK] ELSE rlast[Ev.r]
+         lower == IF floor > rlo[RK] THEN floor ELSE rlo[RK]
          K == {k \in lower..hi : ObsDocs(Ev.obs) = ContentAt(k)}
      IN IF kf THEN UNCHANGED rlast
-        ELSE K # {} /\ rlast' = (Ev.r :> Min(K)) @@ rlast
+        ELSE K # {} /\ rlast' = (Ev.r :> (IF Min(K) > rlast[Ev.r] THEN Min(K) ELSE rlast[Ev.r])) @@ rlast
   /\ heldObs' = IF "kept" \in DOMAIN Ev THEN (<<Ev.r, Ev.gen>> :> Shape(Ev.obs)) @@ heldObs ELSE heldObs
-  /\ UNCHANGED <<commits, rlo>>
+  /\ UNCHANGED <<commits, rlo, rfloor>>
 
 RHeld ==
   /\ Ev.ev = "held"
@@ -69,17 +78,17 @@ RSchedule == Ev.ev = "schedule" /\ UNCHANGED rvars
 
 ReaderStep ==
   /\ l <= Len(Rec) /\ l' = l + 1
-  /\ (RReaderNew \/ RReloadStart \/ RReload \/ RHeld \/ RPeek \/ RSchedule)
+  /\ (RReaderNew \/ RReloadStart \/ RReadStart \/ RReload \/ RHeld \/ RPeek \/ RSchedule)
   /\ UNCHANGED <<pend, commd, lo, metaop, payload, wopen, wCreated, dirty, sorted, kf, calling>>
 
 WriterStep ==
   /\ TNext
   /\ commits' = IF Ev.ev = "reset" THEN <<{}>>
                 ELSE IF Ev.ev = "commit" /\ Ev.ok THEN Append(commits, pend) ELSE commits
-  /\ IF Ev.ev = "reset" THEN rlo' = <<>> /\ rlast' = <<>> /\ heldObs' = <<>>
-     ELSE UNCHANGED <<rlo, rlast, heldObs>>
+  /\ IF Ev.ev = "reset" THEN rlo' = <<>> /\ rlast' = <<>> /\ heldObs' = <<>> /\ rfloor' = <<>>
+     ELSE UNCHANGED <<rlo, rlast, heldObs, rfloor>>
 
 RNext == WriterStep \/ ReaderStep
-RInit == TInit /\ commits = <<{}>> /\ rlo = <<>> /\ rlast = <<>> /\ heldObs = <<>>
+RInit == TInit /\ commits = <<{}>> /\ rlo = <<>> /\ rlast = <<>> /\ heldObs = <<>> /\ rfloor = <<>>
 RSpec == RInit /\ [][RNext]_allvars
 =============================================================================
